@@ -62,6 +62,15 @@ static void fill_routed_request_id(char *buf, size_t buf_size, const void *addre
 
 DECLARE_HASHTABLE_STRING(route_table, CONFIG_ROUTING_TABLE_ORDER, 1)
 
+static int add_item_or_delete(cJSON *object, const char *key, cJSON *item)
+{
+	if (unlikely(!cJSON_AddItemToObject(object, key, item))) {
+		cJSON_Delete(item);
+		return -1;
+	}
+	return 0;
+}
+
 int add_routing_table(struct peer *p)
 {
 	p->routing_table = HASHTABLE_CREATE(route_table);
@@ -89,13 +98,17 @@ cJSON *create_routed_message(const struct peer *p, const char *path, enum type w
 	if (unlikely(json_id == NULL)) {
 		goto error;
 	}
-	cJSON_AddItemToObject(message, "id", json_id);
+	if (unlikely(add_item_or_delete(message, "id", json_id) < 0)) {
+		goto error;
+	}
 
 	cJSON *method = cJSON_CreateString(path);
 	if (unlikely(method == NULL)) {
 		goto error;
 	}
-	cJSON_AddItemToObject(message, "method", method);
+	if (unlikely(add_item_or_delete(message, "method", method) < 0)) {
+		goto error;
+	}
 
 	cJSON *value_copy;
 	if (value != NULL) {
@@ -108,14 +121,22 @@ cJSON *create_routed_message(const struct peer *p, const char *path, enum type w
 	}
 
 	if (what == METHOD) {
-		cJSON_AddItemToObject(message, "params", value_copy);
+		if (unlikely(add_item_or_delete(message, "params", value_copy) < 0)) {
+			goto error;
+		}
 	} else {
 		cJSON *params = cJSON_CreateObject();
 		if (unlikely(params == NULL)) {
+			cJSON_Delete(value_copy);
 			goto error;
 		}
-		cJSON_AddItemToObject(message, "params", params);
-		cJSON_AddItemToObject(params, "value", value_copy);
+		if (unlikely(add_item_or_delete(params, "value", value_copy) < 0)) {
+			cJSON_Delete(params);
+			goto error;
+		}
+		if (unlikely(add_item_or_delete(message, "params", params) < 0)) {
+			goto error;
+		}
 	}
 
 	return message;
